@@ -1838,6 +1838,66 @@ impl RecvCase {
     }
 }
 
+impl RecvCase {
+    /// The Metadata PDU lost again and again, played as `md_repeated` / `C02_lost_metadatas_round` (Props/C02m.lean)
+    /// quantify it: every byte of the file and the EOF are in, the Metadata is not; then expiry after expiry of the NAK
+    /// timer is serviced within the following period, fewer than `limit` of them.  Checked on the real transaction:
+    /// every expiry is followed by a NAK whose requests contain the 0-0 marker, no limit is declared, and the Metadata
+    /// PDU arriving at the end completes the delivery.
+    pub async fn md_loop(&mut self, out: &mut dyn Write, viol: &mut u64, rng: &mut Rng, file: &[u8], md: &PDU, eof: &PDU) {
+        let (mode, crc, fss) = (self.cfg.mode, self.cfg.crc, self.cfg.fss);
+        let seg = self.cfg.seg as usize;
+        let m = self.cfg.max as u64;
+        let (tn, ti) = (self.cfg.tn as u64 * 1000, self.cfg.ti as u64 * 1000);
+        let mut off = 0;
+        while off < file.len() {
+            let l = seg.min(file.len() - off);
+            self.op(out, &format!("recv pdu {}", hexpdu(&fd(off as u64, &file[off..off + l], mode, crc, fss))), viol).await;
+            off += l;
+        }
+        self.op(out, &format!("recv pdu {}", hexpdu(eof)), viol).await;
+        let mut guard = 0;
+        while verif::recv_has_pdu_to_send(&self.t) && guard < 16 {
+            self.op(out, "recv send", viol).await;
+            guard += 1;
+        }
+        let a = self.now_ms;
+        let mut tp = self.now_ms;
+        let mut k = 0u64;
+        while k + 1 < m && !self.dead {
+            let t = tp + tn + rng.below(tn);
+            if t >= a + m * ti {
+                break;
+            }
+            k += 1;
+            self.op(out, &format!("recv adv {}", t - self.now_ms), viol).await;
+            self.op(out, "recv timeout", viol).await;
+            let mut marker = false;
+            guard = 0;
+            while verif::recv_has_pdu_to_send(&self.t) && guard < 16 {
+                self.op(out, "recv send", viol).await;
+                if let Some(PDU { payload: PDUPayload::Directive(Operations::Nak(n)), .. }) = &self.last_emitted {
+                    marker |= n.segment_requests.iter().any(|r| r.start_offset == 0 && r.end_offset == 0);
+                }
+                guard += 1;
+            }
+            if !marker || !self.snap_has("rs=ReceiveData") || !self.snap_has("cond=NoError") {
+                self.bad(out, viol, "C02", "md_loop_repeats", format!("expiry {} (limit {}): no NAK carrying the 0-0 marker went out, or the receiver left the collecting phase: {}", k, m, self.t.verif_snapshot()));
+                return;
+            }
+            tp = t;
+        }
+        if self.dead {
+            return;
+        }
+        self.op(out, &format!("recv adv {}", 1 + rng.below(40)), viol).await;
+        self.op(out, &format!("recv pdu {}", hexpdu(md)), viol).await;
+        if !(self.snap_has("rs=Finished") && self.snap_has("cond=NoError") && self.snap_has("dc=Complete")) {
+            self.bad(out, viol, "C02", "md_loop_completes", format!("the Metadata PDU arrived after {} repeated requests but the delivery is not reported Finished / NoError / Complete: {}", k, self.t.verif_snapshot()));
+        }
+    }
+}
+
 impl SendCase {
     fn snap_has(&mut self, what: &str) -> bool {
         self.t.verif_snapshot().split_whitespace().any(|w| w == what || w.ends_with(&format!("={}", what)))
@@ -2093,6 +2153,8 @@ pub fn run_recv(opts: &Opts, out: &mut dyn Write) {
                 rec(out, &line, &format!("ok ind=[{}] st={} fs={}", inds.iter().map(ind_repr).collect::<Vec<_>>().join(";"), c.t.verif_snapshot(), fs_listing(&c.root)));
                 if loops % 4 == 0 {
                     c.fin_loop(out, &mut viol, &mut rng, &file, &md, &eof).await;
+                } else if loops % 4 == 2 {
+                    c.md_loop(out, &mut viol, &mut rng, &file, &md, &eof).await;
                 } else {
                     c.nak_loop(out, &mut viol, &mut rng, &file, &md, &eof).await;
                 }
